@@ -7,7 +7,7 @@ use rayon::prelude::*;
 use serde_json::{json, Value};
 use std::collections::HashMap;
 use std::sync::atomic::{AtomicU64, Ordering};
-use vmodel::codecs::{acc_step, AccOut};
+use vmodel::codecs::{acc_step, cobs_decode_frame, cobs_encode, AccOut};
 use vmodel::shape::{Shape, Val};
 
 #[derive(Clone, Debug)]
@@ -94,16 +94,17 @@ fn predict(cap: usize, shape: &Shape, pending: &[u8], chunk: &[u8]) -> (Obs, Vec
     (obs, np)
 }
 
-/// decoding of one zero-terminated segment in isolation (frame = bytes before the zero): the real
-/// `from_bytes_cobs` on a fresh copy of the segment - exactly the property's "identical to decoding
-/// each segment in isolation"
+/// What the property prescribes for one zero-terminated segment (frame = bytes before the zero): the
+/// decoded value when the segment is a well-formed frame of the target type, an error otherwise.
+/// COBS well-formedness is decided by the reference decoder; the payload is decoded by the real PLAIN
+/// decoder (so that a plain-codec bug is not reported here).
 pub fn isolated(shape: &Shape, frame: &[u8]) -> ObsKind {
-    let mut seg = frame.to_vec();
-    seg.push(0);
-    let r = trap(|| with_shape(shape, || postcard::from_bytes_cobs::<Dyn>(&mut seg)));
-    match r {
-        Ok(Ok(Dyn(v))) => ObsKind::Success(v),
-        _ => ObsKind::DeserError,
+    match cobs_decode_frame(frame) {
+        Err(()) => ObsKind::DeserError,
+        Ok(payload) => match crate::checks::c05::real_decode(shape, &payload) {
+            Ok((v, _)) => ObsKind::Success(v),
+            Err(_) => ObsKind::DeserError,
+        },
     }
 }
 
@@ -541,6 +542,120 @@ mod sr {
 
 // ---------------------------------------------------------------------------------------------
 
+/// N = 300 / 600 with frames whose payload has runs of 252..509 non-zero bytes, under a structured family
+/// of chunkings (fixed chunk sizes, every single cut, cuts around the block boundaries)
+fn big_capacity_traces(ctx: &Ctx, c09: bool) -> u64 {
+    let mut frames: Vec<(Vec<u8>, ObsKind)> = vec![];
+    for len in [0usize, 1, 251, 252, 253, 254, 255, 506, 507, 508] {
+        for zero_at in [None, Some(len / 2)] {
+            let mut body = vec![0x31u8; len];
+            if let Some(z) = zero_at {
+                if len > 2 {
+                    body[z] = 0;
+                }
+            }
+            let v = Val::Bytes(body);
+            if let Some(plain) = crate::checks::c05::real_plain(&v) {
+                let mut f = cobs_encode(&plain);
+                f.push(0);
+                let want = isolated(&Shape::Bytes, &f[..f.len() - 1]);
+                frames.push((f, want));
+            }
+        }
+    }
+    // streams: garbage / short frame / long frame / empty frame / long frame
+    let mut streams: Vec<(Vec<u8>, Vec<ObsKind>)> = vec![];
+    for (i, (f, w)) in frames.iter().enumerate() {
+        let (g, gw) = &frames[(i * 7 + 3) % frames.len()];
+        let mut s = vec![0x05, 0x01, 0x00]; // ill-formed COBS segment first
+        let mut exp = vec![ObsKind::DeserError];
+        s.extend_from_slice(f);
+        exp.push(w.clone());
+        s.push(0x00); // empty frame: payload empty -> not a Bytes value
+        exp.push(isolated(&Shape::Bytes, &[]));
+        s.extend_from_slice(g);
+        exp.push(gw.clone());
+        streams.push((s, exp));
+    }
+    let hist = AtomicU64::new(0);
+    let t = Target::Dyn(Shape::Bytes);
+    let tb = Target::BorrowBytes;
+    streams.par_iter().enumerate().for_each(|(si, (stream, expected))| {
+        let n = stream.len();
+        let mut cutsets: Vec<Vec<usize>> = vec![vec![]];
+        for size in [1usize, 2, 3, 7, 32, 253, 254, 255, 256, 257] {
+            cutsets.push((1..n).filter(|i| i % size == 0).collect());
+        }
+        for c in 1..n {
+            if c < 6 || c + 6 > n || (c % 254) < 3 || (c % 254) > 251 || c % 16 == 0 {
+                cutsets.push(vec![c]);
+            }
+        }
+        for target in [&t, &tb] {
+            macro_rules! go {
+                ($cap:literal) => {{
+                    for cuts in &cutsets {
+                        hist.fetch_add(1, Ordering::Relaxed);
+                        let r = trap(|| with_shape(&Shape::Bytes, || run_loop_cuts::<$cap>(target, stream, cuts)));
+                        let case = || json!({"N": $cap, "target": target.name(), "stream_len": n, "stream_head": hex(&stream[..n.min(24)]), "cuts": if cuts.len() > 12 { json!(format!("{} cuts, first {:?}", cuts.len(), &cuts[..4])) } else { json!(cuts) }});
+                        let order = (9u64 << 40) | (si as u64) << 20 | cuts.len() as u64;
+                        match r {
+                            Err(p) => ctx.violation("acc-trace-panic", format!("panic: {p}"), order, case()),
+                            Ok(Err(e)) => ctx.violation("acc-trace-bytes", e, order, case()),
+                            Ok(Ok(results)) => {
+                                // every segment fits N here, so the result list is exactly one entry per sentinel
+                                if &results != expected {
+                                    let short = |v: &Vec<ObsKind>| v.iter().map(|k| match k { ObsKind::Success(_) => "Success", ObsKind::DeserError => "DeserError", ObsKind::OverFull => "OverFull", ObsKind::Consumed => "Consumed" }).collect::<Vec<_>>();
+                                    ctx.violation(if c09 { "acc-trace-large-N-c09" } else { "acc-trace-large-N" }, format!("results {:?}, expected {:?} (one per sentinel, isolated decoding)", short(&results), short(expected)), order, case());
+                                }
+                            }
+                        }
+                    }
+                }};
+            }
+            if n + 1 <= 600 {
+                go!(600);
+            }
+            if stream.split(|b| *b == 0).all(|seg| seg.len() + 1 <= 300) {
+                go!(300);
+            }
+        }
+    });
+    hist.load(Ordering::Relaxed)
+}
+
+fn run_loop_cuts<const N: usize>(t: &Target, stream: &[u8], cuts: &[usize]) -> Result<Vec<ObsKind>, String> {
+    let mut acc: CobsAccumulator<N> = CobsAccumulator::new();
+    let mut results = vec![];
+    let mut bounds: Vec<usize> = cuts.to_vec();
+    bounds.push(stream.len());
+    let mut start = 0;
+    let mut iters = 0u64;
+    for b in bounds {
+        if b <= start {
+            continue;
+        }
+        let mut window = &stream[start..b];
+        start = b;
+        while !window.is_empty() {
+            iters += 1;
+            if iters > 2 * stream.len() as u64 + 2 {
+                return Err("feed loop did not terminate".into());
+            }
+            let o = do_feed(&mut acc, t, window);
+            if !o.rem_ok {
+                return Err("remainder is not a suffix of the window".into());
+            }
+            match o.kind {
+                ObsKind::Consumed => break,
+                k => results.push(k),
+            }
+            window = &window[o.rem_off..];
+        }
+    }
+    Ok(results)
+}
+
 fn targets() -> Vec<Target> {
     vec![
         Target::Dyn(Shape::Bool),
@@ -607,6 +722,10 @@ pub fn run(ctx: &Ctx, c09: bool) {
         }
         for_caps!(one, caps.clone(), 1, 2, 3, 4, 5, 6, 7);
     }
+    // large capacities: frames with full 0xFF blocks (>= 254 non-zero bytes) need N >= 257
+    let big = big_capacity_traces(ctx, c09);
+    total_hist += big;
+    ctx.class("large-capacity-histories(N=300,600)", big);
     let mut ev = ctx.ev.lock().unwrap();
     ev.states = Some(total_states);
     ev.transitions = Some(total_trans);
